@@ -75,6 +75,46 @@ CHECKS.update({
             "Library in internal units; any raise counts as a surfaced failure.", "6/C14"),
 })
 
+CHECKS.update({
+    "C04": ("identity monitor across three code paths (kernel ln_likelihood, twobody reconstruction, recorded draw parameters) "
+            "+ independent Kepler curve comparison",
+            "Exploration: every returned row of seeded sessions is checked for ln L = ln p(y|theta,x) + ln p(x|theta) - ln N(x|a,A) "
+            "with the third term from the *recorded* multivariate_normal arguments, for get_orbit's curve against an independent "
+            "solver, and for samples.t_ref.",
+            "Tolerance combines 1e-7 relative, cond(A) eps, the Kepler tolerance and the kernel's measured round-off.", "6/C04"),
+    "C05": ("bitwise self-consistency across execution paths and call histories; random-operation hammer on one CJokerHelper "
+            "vs fresh helpers; ASan+UBSan (quick, thorough) and valgrind memcheck (thorough) on the rebuilt kernel",
+            "Exploration over (path, n_batches, pool, input kind, history) tuples and thousands of helper operations; equality is "
+            "bitwise because all paths run the same kernel on the same doubles.",
+            "Sanitizer silence is not memory safety; MultiPool scheduling is whatever the OS produces in the run.", "6/C05"),
+    "C07": ("metamorphic twins (same physical problem, other units) run with equal seeds",
+            "Exploration: ll_twin - ll_base = -n ln(ratio), equal accepted tags, physically equal posterior values for random "
+            "subsets of {data, K prior, max_K, trend/offset priors, P unit, P0, library columns} re-expressed; includes a library "
+            "file whose path is re-used with other column units.",
+            "Base problems are moderately informative so 1-ulp conversion differences stay below tolerance.", "6/C07"),
+    "C09": ("analytic log-density oracle on pm.logp grids + numerical normalisation; constant-offset monitor on ln_prior; KS tests on draws",
+            "Exploration over prior configurations; deterministic monitors decide the log-densities exactly, KS tests (p>1e-9) are the "
+            "backstop for the samplers.",
+            "pymc's built-in distributions and numpy samplers are trusted; KS resolves CDF errors >~0.01.", "6/C09"),
+    "C10": ("repeat-run digests (two global seeds, fresh interpreter with another PYTHONHASHSEED, SerialPool vs MultiPool), global "
+            "RNG state guards, recorded spawn keys and variate uniqueness",
+            "Exploration over random call sequences on one TheJoker; bitwise digests of every output column.",
+            "Continuous variates coincide with probability 0.", "6/C10"),
+    "C11": ("compiled evaluation of the pymc model built by setup_mcmc at physical parameter points vs independent Kepler model, "
+            "Gaussian term and declared prior densities",
+            "Exploration over unit systems, trends, offsets, jitter kinds; model_rv, ln_likelihood, log-density offset constancy, mcmc_init.",
+            "The model is evaluated, not sampled.", "6/C11"),
+    "C13": ("fault enumeration with sys.monitoring PY_START failpoints on thejoker's code objects and wrappers on the I/O / pool "
+            "boundaries; postcondition monitors on TMPDIR, user file hash, descriptors, follow-up calls",
+            "Fault enumeration: every (function, k-th invocation) reached by a clean run of each scenario gets one injected run "
+            "(quick: first/last invocation).",
+            "Faults are exceptions, not process kills; inside MultiPool workers only worker entry points are targeted.", "6/C13"),
+    "C18": ("validity predicate evaluated next to the real constructors on systematic single/double corruptions",
+            "Exploration, systematic over (poly_trend, n_offsets) x parameter x corruption kind; a silent success on an invalid "
+            "specification (or a refusal of a valid one) is the violation.",
+            "Any exception counts as a refusal.", "6/C18"),
+})
+
 NOT_YET = {
 }
 
